@@ -160,6 +160,38 @@ func runC10(cx *CheckCtx) {
 	checkLoaders(cx, nnsPkg)
 	// "available again from its expiration instant": availability is refused only for a real conflict
 	checkParentConflictHelper(cx, cx.locate(nnsPkg, "getParentConflictingRecord", "searches record names for a suffix itself", func(f *ssa.Function) bool { return directCallees(f)["native/std.MemorySearchLastIndex"] > 0 }))
+	// … and a name is reported taken only while it is alive: IsAvailable answers the constant false only on
+	// the side where the liveness helper (the one reading name states and the clock) said "nobody on the path
+	// has expired" — not on the mere presence of the name's record, which outlives the registration
+	if m := cx.method("nns", "IsAvailable"); m != nil {
+		if pe := nnsParentExpiredFn(cx); pe != nil {
+			a := cx.run(m)
+			var peSites []*Site
+			for _, s := range a.Sites(func(s *Site) bool { return s.Inlined && s.Callee == fq(pe) && s.Ctx.parent == nil }) {
+				peSites = append(peSites, s)
+			}
+			ok, where, n := true, "", 0
+			for _, ex := range a.Exits() {
+				if len(ex.Results) != 1 {
+					continue
+				}
+				if bv, isC := ex.Results[0].BoolConst(); !isC || bv {
+					continue
+				}
+				n++
+				alive := false
+				for _, ps := range peSites {
+					if ps.Val != nil && a.holdsAt(ex.State, -a.litB(ps.Val)) {
+						alive = true
+					}
+				}
+				if !alive {
+					ok, where = false, exitPos(w, ex)
+				}
+			}
+			cx.decide(ok && n > 0, "getter-alive", "nns.IsAvailable/taken-only-if-alive", fmt.Sprintf("%d 'taken' answers, each only where the liveness helper found the whole path alive", n), "isAvailable can answer 'taken' without the liveness helper having found the name and its parents unexpired (a stored record is enough): an expired name never becomes available again", where)
+		}
+	}
 	c := cx.contract("nns")
 	if c == nil {
 		return
@@ -928,6 +960,7 @@ func checkExpiryBoundaries(cx *CheckCtx) {
 func runC11(cx *CheckCtx) {
 	w := cx.W
 	nnsTransferResetsAdmin(cx, "transfer-resets-admin")
+	nnsRegisterStartsWithoutAdmin(cx, "register-without-admin")
 	// "on behalf of an owner who witnesses the transaction", "only with the witness of its owner or admin":
 	// the documented gates of the NNS mutators (the T-witness rows, shared with C03)
 	for _, name := range []string{"Register", "RegisterTLD", "Transfer", "SetAdmin", "Renew", "RenewDefault", "AddRecord", "SetRecord", "DeleteRecords", "UpdateSOA"} {
@@ -1554,6 +1587,10 @@ func tb0(a *Analysis) *TermBuilder { return a.tb }
 
 func runC18(cx *CheckCtx) {
 	w := cx.W
+	// "addRecord/setRecord accept exactly well-formed data": a well-formed record for a name below an expired
+	// intermediate level is filed under the next live suffix, not refused — the level rules of the helper that
+	// finds the governing token (shared with C11/C12)
+	checkRecordOwner(cx)
 	safeFn := nnsSafeSplitFn(cx)
 	if safeFn == nil {
 		return
@@ -2421,5 +2458,33 @@ func checkParentConflictHelper(cx *CheckCtx, conflictFn *ssa.Function) {
 		}
 		cx.decide(okPol && nRep > 0, "parent-conflict", "nns.getParentConflictingRecord/polarity", "a conflict is reported only for a record name that ends with '.'‖name; none only after exhaustion", "the conflict test is inverted or weakened: names are refused without a conflicting parent record, or registered in spite of one", w.pos(fn.Pos()))
 		cx.decide(okS, "parent-conflict", "nns.getParentConflictingRecord/scan", "scans all records stored under the enclosing name", "the conflict check does not scan the records of the directly enclosing name", w.pos(fn.Pos()))
+	}
+}
+
+// nnsRegisterStartsWithoutAdmin: "rights follow ownership" at registration: the name record a registration
+// stores (first registration or take-over of an expired name, by Register or by the committee's RegisterTLD)
+// has Admin = nil — whoever the previous registration had appointed is not the new owner's admin.
+func nnsRegisterStartsWithoutAdmin(cx *CheckCtx, rule string) {
+	for _, name := range []string{"Register", "RegisterTLD"} {
+		m := cx.method("nns", name)
+		if m == nil {
+			continue
+		}
+		a := cx.run(m)
+		tb := a.tb
+		n := 0
+		for _, s := range a.RealEffects() {
+			if s.Effect != "put" || keyFamily(s.Args[1]) != pfxName {
+				continue
+			}
+			n++
+			v := unserialize(a.canonAt(s, s.Args[2]))
+			adm := tb.field(v, "Admin")
+			ok := v.Op == "struct" && adm != nil && adm.IsNil()
+			cx.decide(ok, rule, "nns."+name+"/"+siteConstruct(a, s), "the registered record starts with Admin = nil", "a registration stores "+v.pretty()+": the admin of a previous (expired) registration of the name survives into the new owner's registration and keeps his write access", s.Where(cx.W))
+		}
+		if n == 0 {
+			cx.violated(rule, "nns."+name+"/record", name+" no longer stores a name record", cx.W.pos(m.Fn.Pos()))
+		}
 	}
 }
